@@ -445,8 +445,119 @@ def r4_forward_only_guard(repo=None):
     return r
 
 
+def r5_existing_target_refused_first(repo=None):
+    """'A write call that would place data at or before an index already written ... is rejected with an error and changes
+    nothing ... later valid writes behave as if the rejected call had never been made.'  A write whose target file exists already (the
+    finished file of an earlier session, or a tmp. file this writer did not create) is such a call.  In digital_rf_create_hdf5_file
+    every refusal that follows an existence test (access / stat on a path) must come before any change of the writer: before the
+    previous file is closed and published, before the sequence number advances and before the remembered sub-directory / file
+    name are switched.  Decided on the CFG: no effect node (a store to a field of the writer object, a call that closes or
+    publishes, creates a directory or a file) can reach the existence test."""
+    r = Rule("C05.R5", "a write into a file that already exists is refused before the writer is changed in any way")
+    tu = cfront.lib(repo)
+    fn = tu.fn("digital_rf_create_hdf5_file")
+    g = _cfg.build_c(fn)
+    EFFECT_CALLS = ("digital_rf_close_hdf5_file", "digital_rf_create_new_directory", "H5Fcreate", "H5Dcreate2", "H5Dclose", "H5Fclose",
+                    "H5Sclose", "H5Pclose", "rename", "remove", "unlink", "mkdir")
+    effects = []
+    for n in g.nodes:
+        if n.ast is None or n.kind not in ("stmt", "cond", "return"):
+            continue
+        st = [path for path, node, rhs, kind in clib.stores(n.ast) if path and path.startswith(OBJ + "->")]
+        cl = [c.callee for c in n.ast.calls(EFFECT_CALLS)]
+        if st or cl:
+            effects.append((n, (st + cl)[0]))
+    tests = []
+    for n in g.nodes:
+        if n.kind == "cond" and n.ast is not None and n.ast.calls(("access", "stat", "lstat")):
+            # the side on which a file was found leads to an error return
+            for lab in ("T", "F"):
+                starts = [b for b, l in g.succ[n.id] if l == lab]
+                rets = [x for x in g.nodes if x.kind == "return" and x.id in g.reach(starts, avoid=[e_.id for e_, _ in effects])
+                        and x.ast.children and x.ast.children[0].intval() not in (None, 0)]
+                if rets:
+                    tests.append(n)
+                    break
+    if not tests:
+        raise AnalysisError("%s: no existence test leading to a refusal found (the test of the finished name was confirmed on the "
+                            "reference tree)" % fn.name)
+    import re as _re
+
+    def probed(n_):
+        return {_re.sub(r"\s", "", c.args[0].nsrc) for c in n_.ast.calls(("access", "stat", "lstat")) if c.args}
+    for n in tests:
+        before = [(e_, what) for e_, what in effects if e_.id != n.id and n.id in g.reach([e_.id], skip_labels=("back",))]
+        site = "%s:%s %s `%s`" % (LIB, n.line, fn.name, n.label[:60])
+        # the same path tested again later: every path to it has passed the earlier test, which refuses first - the second test can
+        # only find a file that appeared in between (a concurrent writer), it is not where an existing target is refused
+        earlier = [m_ for m_ in tests if m_ is not n and probed(m_) & probed(n) and n.id not in g.reach([g.entry.id], avoid=[m_.id])
+                   and not [1 for e_, w_ in effects if e_.id != m_.id and m_.id in g.reach([e_.id], skip_labels=("back",))]]
+        if before and earlier:
+            r.ok(site, "repeats the test of line %d, which refuses an existing target before any change (this one can only see a file "
+                 "created in between)" % earlier[0].line)
+            continue
+        if before:
+            e_, what = sorted(before, key=lambda t: t[0].line)[0]
+            r.violation(LIB, fn.name, "`%s` is tested after %s" % (n.label[:50], what),
+                        "the refusal of a write whose target file exists comes after the writer was changed (line %d: %s): the file the "
+                        "writer had open has been closed and published, the sequence number and the remembered names switched - a "
+                        "partly written file is finalized by a rejected call and the next valid write into its period is refused" % (
+                            e_.line, e_.label[:50]), line=n.line)
+        else:
+            r.ok(site, "nothing of the writer object has been changed when this existence test refuses the call")
+    r.guard(1)
+    return r
+
+
+def r6_description_always_validated(repo=None):
+    """'A write call ... whose block description is malformed ... is rejected with an error': the validation of the block arrays
+    lives in the per-file write step, which the loop `while (samples_written < vector_length)` never enters for an empty vector.
+    Every path of digital_rf_write_blocks_hdf5 to a success return passes the validating call or a test of the description made
+    for the empty vector (a condition over index_len / data_index_arr under vector_length == 0)."""
+    r = Rule("C05.R6", "no path of the public block write returns success without having looked at the block description")
+    tu = cfront.lib(repo)
+    fn = tu.fn("digital_rf_write_blocks_hdf5")
+    g = _cfg.build_c(fn)
+    val = [_node_of(g, c).id for c in fn.calls(("digital_rf_write_samples_to_file",))]
+    if not val:
+        raise AnalysisError("%s: call of the per-file write step not found" % fn.name)
+    import re as _re
+    # the test "is the vector empty": a condition on vector_length alone (== 0, < 1, !vector_length); it counts as a guard only if its
+    # empty side goes on to a test of the offsets array that can end in an error return
+    guards = []
+    for n in g.nodes:
+        if n.kind != "cond" or n.ast is None:
+            continue
+        t = _re.sub(r"\s", "", n.ast.nsrc)
+        lab = {"vector_length==0": "T", "0==vector_length": "T", "vector_length<1": "T", "!vector_length": "T",
+               "vector_length!=0": "F", "vector_length>0": "F", "vector_length": "F"}.get(t)
+        if lab is None:
+            continue
+        side = g.reach([b_ for b_, l_ in g.succ[n.id] if l_ == lab], skip_labels=("exc",))
+        descr = [m_ for m_ in g.nodes if m_.kind == "cond" and m_.ast is not None and m_.id in side and "data_index_arr" in m_.ast.nsrc]
+        errs = [x for x in g.nodes if x.kind == "return" and x.ast.children and x.ast.children[0].intval() not in (None, 0)
+                and any(x.id in g.reach([b_ for b_, _l in g.succ[m_.id]], skip_labels=("exc",)) for m_ in descr)]
+        if descr and errs:
+            guards.append(n.id)
+    succ = [x for x in g.nodes if x.kind == "return" and x.ast.children and x.ast.children[0].intval() == 0]
+    if not succ:
+        raise AnalysisError("%s: success return not found" % fn.name)
+    reach = g.reach([g.entry.id], avoid=val + guards, skip_labels=("exc",))
+    bare = [x for x in succ if x.id in reach]
+    if bare:
+        r.violation(LIB, fn.name, "return(0) reachable without digital_rf_write_samples_to_file and without a test of the description",
+                    "with an empty data vector the write loop does not run and the call returns success for any block description - "
+                    "first offset not 0, non-increasing indices, overlapping blocks, offsets past the end - which the Python writer "
+                    "rejects with ValueError", line=bare[0].line)
+    else:
+        r.ok("%s:%s %s" % (LIB, succ[0].line, fn.name), "every path to return(0) passes the per-file validation or the empty-vector "
+             "test of the description (%d guard condition(s))" % len(guards))
+    r.guard(1)
+    return r
+
+
 def rules(repo=None):
-    return [lambda: r1_validate_before_effect_c(repo), lambda: r2_validate_before_effect_py(repo),
+    return [lambda: r5_existing_target_refused_first(repo), lambda: r6_description_always_validated(repo), lambda: r1_validate_before_effect_c(repo), lambda: r2_validate_before_effect_py(repo),
             lambda: r3_extension_reports_rejection(repo), lambda: r4_forward_only_guard(repo)]
 
 
